@@ -139,14 +139,36 @@ def parsePoll (s : String) : Option (PollObs × Option (Nat × GMode)) :=
 
 def bits (s : String) : List Bool := if s = "-" then [] else s.toList.map (· == '1')
 
-/-- set `S1.opt` presence (family-specific direct mutation by the harness) -/
+/-- set every integer leaf of a sub-tree -/
+partial def fillInts (n : Nat) : Tree → Tree
+  | .leaf k (.int _) => .leaf k (.int n)
+  | .node f a lk fs => .node f a lk (fs.map fun (att, t) => (att, fillInts n t))
+  | .array es => .array (es.map (fillInts n))
+  | .gate g c t => .gate g c (fillInts n t)
+  | t => t
+
+/-- set the presence of the top-level `Option` field (family-specific direct mutation by the harness: `S1.opt`,
+`S3.o`): `Some` with every leaf below set to `n`, or `None` -/
 def setOpt (v : Option Nat) : Tree → Tree
   | .node f a lk fs => .node f a lk (fs.map fun (att, t) =>
       match t with
-      | .gate .option _ (.leaf k old) =>
+      | .gate .option _ inner =>
         (att, match v with
-          | some n => .gate .option false (.leaf k (.int n))
-          | none => .gate .option true (.leaf k old))
+          | some n => .gate .option false (fillInts n inner)
+          | none => .gate .option true inner)
+      | t => (att, t))
+  | t => t
+
+/-- set the variant of the top-level enum field (`S3.mode`): `none` = a unit / skipped variant, `some (i, n)` =
+retained variant `i` with payload `n` -/
+def setMode (v : Option (Nat × Nat)) : Tree → Tree
+  | .node f a lk fs => .node f a lk (fs.map fun (att, t) =>
+      match t with
+      | .node f' (some _) lk' fs' =>
+        (att, match v with
+          | none => .node f' (some none) lk' fs'
+          | some (i, n) => .node f' (some (some i)) lk' (fs'.zipIdx.map fun ((a', t'), j) =>
+              if j = i then (a', fillInts n t') else (a', t')))
       | t => (att, t))
   | t => t
 
@@ -179,6 +201,14 @@ def item (pfx : Str) (t0 : Tree) (m : MState) (tok : String) : Option (MState ×
   | ["O", v] =>
     if v = "none" then some ({ m with s := setOpt none m.s }, "ok")
     else v.toNat?.map fun n => ({ m with s := setOpt (some n) m.s }, "ok")
+  | ["M", v, n] => do
+    let n ← n.toNat?
+    let sel ← match v with
+      | "o" | "c" => some none
+      | "a" => some (some (0, n))
+      | "b" => some (some (1, n))
+      | _ => none
+    some ({ m with s := setMode sel m.s }, "ok")
   | _ => none
 
 /-- `mqm <id> <tid> <sid> <prefix cp> item item …` -/
